@@ -133,12 +133,12 @@ def run(rng: Rng, tier: str, index: int) -> RunResult:
     return res
 
 
-def _mk_key(rng, alg, kid, rare_ok=True):
+def _mk_key(rng, alg, kid, rare_ok=True, big=False):
     params = {"kid": kid} if kid else {}
     kty, crv = K.JWS_ALG_KEY[alg]
     if kty == "EC" and rare_ok and rng.chance(0.2):
         return K.make_ec(rng, crv, params, rare=rng.pick(["x", "y", "d"]))
-    return K.key_for_jws(rng, alg, params)
+    return K.key_for_jws(rng, alg, params, big=big)
 
 
 def _run(rng, tier, index, alg, form, res, tr, ch):
@@ -150,7 +150,7 @@ def _run(rng, tier, index, alg, form, res, tr, ch):
         if general:
             producer_kind = "general"
         payload = _payload(erng.sub("payload"), form)
-        extra = W.gen_extra(erng, 2)
+        extra = W.gen_extra(erng, 2, long_ok=True)
         if form in ("c7797", "f7797"):
             extra.pop("crit", None)
             extra["b64"] = erng.pick([False, False, False, True])
